@@ -43,6 +43,12 @@ def hStep : Handler := fun op j =>
       let cs := defaultCstr "feedratio" (fun sk => "fc_" ++ sk) subst
       let fcj := (Json.arr (cs.fc.map fun kv => Json.arr #[Json.str kv.1, Json.str kv.2]).toArray).compress
       pure (cs.frKey ++ ";" ++ fcj ++ ";" ++ showRates (ratesDict (← getVars j "vars") rs (some subst) (some cs)))
+  | "terms_rate" => do
+      -- a reaction written as a string with (possibly repeated) terms: merged dictionaries, net stoichiometry, rate dict
+      let r ← asRxnTerms (← field j "terms")
+      let keys ← getStrList j "keys"
+      pure (";".intercalate [showNatDict r.reac, showNatDict r.prod, showNatDict r.inactReac, showNatDict r.inactProd,
+        showIntList (netStoichTuple r keys), showRates (rateDict (← getVars j "vars") r keys)])
   | "law_rates" => do
       let rs ← getRxns j "rxns"
       pure (showExceptList (lawOfMassActionRates (← getRatList j "conc") (← getStrList j "keys") rs))
